@@ -77,9 +77,12 @@ impl Story {
 
         // Don't create choice if player has already read this content
         if choice_point.once_only() {
+            let choice_target = choice_point.get_choice_target().ok_or_else(|| {
+                StoryError::InvalidStoryState("The target of a choice is not a container".to_owned())
+            })?;
             let visit_count = self
                 .get_state_mut()
-                .visit_count_for_container(choice_point.get_choice_target().as_ref().unwrap());
+                .visit_count_for_container(&choice_target);
             if visit_count > 0 {
                 show_choice = false;
             }
